@@ -95,29 +95,56 @@ def ofArmsL (globals : Vis) : Nat → List Arm → Option LArms
       pure (.cons la ps b r)
 end
 
-def ofStmtsL : Nat → Nat → Vis → List Stmt → Option (List LStmt × Nat × Vis)
-  | 0, _, _, _ => none
-  | _+1, n, vis, [] => some ([], n, vis)
-  | fuel+1, n, vis, s :: rest =>
+def ofStmtsL : Nat → Nat → Vis → List (Option String) → List Stmt → Option (List LStmt × Nat × Vis)
+  | 0, _, _, _, _ => none
+  | _+1, n, vis, _, [] => some ([], n, vis)
+  | fuel+1, n, vis, labels, s :: rest =>
     match s with
     | .letS l _ name e => do
       let vis' := (name, n) :: vis
       let e' ← ofExprL vis' fuel e
-      let (ss, nf, visf) ← ofStmtsL fuel (n + 1) vis' rest
+      let (ss, nf, visf) ← ofStmtsL fuel (n + 1) vis' labels rest
       pure (.letG l n e' :: ss, nf, visf)
-    | .exprS l e => do
-      let e' ← ofExprL vis fuel e
-      let (ss, nf, visf) ← ofStmtsL fuel n vis rest
-      pure (.expr l e' :: ss, nf, visf)
+    | .exprS ls e =>
+      match ofExprL vis fuel e with
+      | some e' => do
+        let (ss, nf, visf) ← ofStmtsL fuel n vis labels rest
+        pure (.expr ls e' :: ss, nf, visf)
+      | none =>
+        match e with
+        | .ifE l c (.mk _ ts) els => do
+          let c' ← ofExprL vis fuel c
+          let (t', n1, _) ← ofStmtsL fuel n vis labels ts
+          let (e', n2, _) ← (match els with
+            | .none => some ([], n1, vis)
+            | .els (.mk _ es) => ofStmtsL fuel n1 vis labels es
+            | .elif x => ofStmtsL fuel n1 vis labels [.exprS 0 x])
+          let (ss, nf, visf) ← ofStmtsL fuel n2 vis labels rest
+          pure (.ifS ls l c' t' e' :: ss, nf, visf)
+        | _ => none
     | .block (.mk l body) => do
-      let (bs, n1, _) ← ofStmtsL fuel n vis body
-      let (ss, nf, visf) ← ofStmtsL fuel n1 vis rest
+      let (bs, n1, _) ← ofStmtsL fuel n vis labels body
+      let (ss, nf, visf) ← ofStmtsL fuel n1 vis labels rest
       pure (.block l bs :: ss, nf, visf)
-    | .whileS l none cond (.mk _ body) => do
+    | .whileS l lbl cond (.mk _ body) => do
       let c' ← ofExprL vis fuel cond
-      let (bs, n1, _) ← ofStmtsL fuel n vis body
-      let (ss, nf, visf) ← ofStmtsL fuel n1 vis rest
-      pure (.whileS l c' bs :: ss, nf, visf)
+      let (bs, n1, _) ← ofStmtsL fuel n vis (lbl :: labels) body
+      let (ss, nf, visf) ← ofStmtsL fuel n1 vis labels rest
+      pure (.whileS l lbl c' bs :: ss, nf, visf)
+    | .loop l lbl (.mk _ body) => do
+      let (bs, n1, _) ← ofStmtsL fuel n vis (lbl :: labels) body
+      let (ss, nf, visf) ← ofStmtsL fuel n1 vis labels rest
+      pure (.loopS l lbl bs :: ss, nf, visf)
+    | .breakS l lbl =>
+      if labelOK labels lbl then do
+        let (ss, nf, visf) ← ofStmtsL fuel n vis labels rest
+        pure (.breakS l lbl :: ss, nf, visf)
+      else none
+    | .continueS l lbl =>
+      if labelOK labels lbl then do
+        let (ss, nf, visf) ← ofStmtsL fuel n vis labels rest
+        pure (.continueS l lbl :: ss, nf, visf)
+      else none
     | _ => none
 
 /-! ## forgetting the lines gives the recogniser the `core`/`core2` ops and the C02 theorems use -/
@@ -197,13 +224,13 @@ theorem erase_ofExprL (vis : Vis) : ∀ (fuel : Nat) (e : Expr), (ofExprL vis fu
 theorem eraseArms_ofArmsL (vis : Vis) (fuel : Nat) (arms : List Arm) :
     (ofArmsL vis fuel arms).map eraseArms = ofArms vis fuel arms := (erase_ofExprL_both vis fuel).2 arms
 
-theorem eraseP_ofStmtsL : ∀ (fuel n : Nat) (vis : Vis) (ss : List Stmt),
-    (ofStmtsL fuel n vis ss).map (fun r => (eraseP r.1, r.2.1, r.2.2)) = ofStmts fuel n vis ss := by
+theorem eraseP_ofStmtsL : ∀ (fuel n : Nat) (vis : Vis) (labels : List (Option String)) (ss : List Stmt),
+    (ofStmtsL fuel n vis labels ss).map (fun r => (eraseP r.1, r.2.1, r.2.2)) = ofStmts fuel n vis labels ss := by
   intro fuel
   induction fuel with
-  | zero => intro n vis ss; simp [ofStmtsL, ofStmts]
+  | zero => intro n vis labels ss; simp [ofStmtsL, ofStmts]
   | succ f ih =>
-    intro n vis ss
+    intro n vis labels ss
     cases ss with
     | nil => simp [ofStmtsL, ofStmts, eraseP]
     | cons s rest =>
@@ -211,26 +238,66 @@ theorem eraseP_ofStmtsL : ∀ (fuel n : Nat) (vis : Vis) (ss : List Stmt),
       case letS l site name e =>
         simp only [ofStmtsL, ofStmts, ← ih, ← erase_ofExprL]
         cases ofExprL ((name, n) :: vis) f e <;> simp
-        cases ofStmtsL f (n + 1) ((name, n) :: vis) rest <;> simp [eraseP, eraseS]
+        cases ofStmtsL f (n + 1) ((name, n) :: vis) labels rest <;> simp [eraseP, eraseS]
       case exprS l e =>
         simp only [ofStmtsL, ofStmts, ← ih, ← erase_ofExprL]
-        cases ofExprL vis f e <;> simp
-        cases ofStmtsL f n vis rest <;> simp [eraseP, eraseS]
+        cases he : ofExprL vis f e with
+        | some e' =>
+          simp only [Option.map_some]
+          cases ofStmtsL f n vis labels rest <;> simp [eraseP, eraseS]
+        | none =>
+          simp only [Option.map_none]
+          cases e
+          case ifE li c t els =>
+            obtain ⟨bl, ts⟩ := t
+            simp only []
+            cases ofExprL vis f c <;> simp
+            cases ofStmtsL f n vis labels ts <;> simp
+            rename_i c' r
+            cases els
+            case none =>
+              simp
+              cases ofStmtsL f r.2.1 vis labels rest <;> simp [eraseP, eraseS]
+            case els b =>
+              obtain ⟨bl2, es⟩ := b
+              simp
+              cases ofStmtsL f r.2.1 vis labels es <;> simp
+              rename_i r2
+              cases ofStmtsL f r2.2.1 vis labels rest <;> simp [eraseP, eraseS]
+            case elif x =>
+              simp
+              cases ofStmtsL f r.2.1 vis labels [Stmt.exprS 0 x] <;> simp
+              rename_i r2
+              cases ofStmtsL f r2.2.1 vis labels rest <;> simp [eraseP, eraseS]
+          all_goals simp
       case block b =>
         obtain ⟨l, body⟩ := b
         simp only [ofStmtsL, ofStmts, ← ih]
-        cases ofStmtsL f n vis body <;> simp
+        cases ofStmtsL f n vis labels body <;> simp
         rename_i r
-        cases ofStmtsL f r.2.1 vis rest <;> simp [eraseP, eraseS]
+        cases ofStmtsL f r.2.1 vis labels rest <;> simp [eraseP, eraseS]
       case whileS l label c b =>
         obtain ⟨bl, body⟩ := b
-        cases label
-        case some lb => simp [ofStmtsL, ofStmts]
-        case none =>
-          simp only [ofStmtsL, ofStmts, ← ih, ← erase_ofExprL]
-          cases ofExprL vis f c <;> simp
-          cases ofStmtsL f n vis body <;> simp
-          rename_i r
-          cases ofStmtsL f r.2.1 vis rest <;> simp [eraseP, eraseS]
+        simp only [ofStmtsL, ofStmts, ← ih, ← erase_ofExprL]
+        cases ofExprL vis f c <;> simp
+        cases ofStmtsL f n vis (label :: labels) body <;> simp
+        rename_i r
+        cases ofStmtsL f r.2.1 vis labels rest <;> simp [eraseP, eraseS]
+      case loop l label b =>
+        obtain ⟨bl, body⟩ := b
+        simp only [ofStmtsL, ofStmts, ← ih]
+        cases ofStmtsL f n vis (label :: labels) body <;> simp
+        rename_i r
+        cases ofStmtsL f r.2.1 vis labels rest <;> simp [eraseP, eraseS]
+      case breakS l label =>
+        simp only [ofStmtsL, ofStmts, ← ih]
+        split
+        · cases ofStmtsL f n vis labels rest <;> simp [eraseP, eraseS]
+        · simp
+      case continueS l label =>
+        simp only [ofStmtsL, ofStmts, ← ih]
+        split
+        · cases ofStmtsL f n vis labels rest <;> simp [eraseP, eraseS]
+        · simp
       all_goals simp [ofStmtsL, ofStmts]
 end P2sh.Core
